@@ -58,6 +58,7 @@ type pathResult struct {
 	assertSites map[string]bool
 	uninit     map[string]bool
 	escaped    string
+	branchSites map[string]int // debugging: fork sites of this path (SYMGO_PROGRESS)
 }
 
 type pathCtx struct {
@@ -83,6 +84,9 @@ type pathCtx struct {
 	assumes int
 	freshVars map[string]bool // declared inputs not yet mentioned in any term
 	fpBits  map[string]sym
+	defs    map[string]string // hash-consing: sort+expr -> defined name
+	decided map[string]bool   // branch conditions already decided (asserted) on this path
+	pinned  map[string]int64  // terms pinned to a concrete value by choose
 }
 
 type killPath struct{ why string }
@@ -115,6 +119,16 @@ func (px *pathCtx) emit(line string) {
 func (px *pathCtx) finish() { px.sol.send("(pop 1)") }
 
 func (px *pathCtx) define(sort, expr string) string {
+	// Terms are pure, so structurally equal definitions share one name;
+	// that also lets repeated branches on the same condition be recognised.
+	key := sort + "\x00" + expr
+	if n, ok := px.defs[key]; ok {
+		return n
+	}
+	if px.defs == nil {
+		px.defs = map[string]string{}
+	}
+	defer func() { px.defs[key] = "t" + strconv.Itoa(px.nsym) }()
 	px.nsym++
 	name := "t" + strconv.Itoa(px.nsym)
 	px.emit("(define-fun " + name + " () " + sort + " " + expr + ")")
@@ -167,9 +181,18 @@ func (px *pathCtx) branch(c sym, why string) bool {
 	if c.t == "false" {
 		return false
 	}
+	// A condition already decided on this path (its truth value is part of
+	// the path condition) is not a fork: no query, no decision recorded.
+	if d, ok := px.decided[c.t]; ok {
+		return d
+	}
+	if px.decided == nil {
+		px.decided = map[string]bool{}
+	}
 	px.res.forks++
 	if px.pos < len(px.prefix) {
 		d := px.prefix[px.pos]
+		px.decided[c.t] = d
 		px.pos++
 		px.trace = append(px.trace, decision{v: d})
 		px.assume(c, d)
@@ -195,6 +218,22 @@ func (px *pathCtx) branch(c sym, why string) bool {
 	}
 	if rt == "error" || rf == "error" {
 		panic(unsupported{"solver error at branch: " + strings.Join(px.sol.errs, "; ")})
+	}
+	// The resident (incremental) solver gave up: ask the one-shot back ends.
+	// Only a definite answer of theirs is used; otherwise the side stays
+	// "unknown" (kept as feasible and counted).
+	if rt == "unknown" {
+		if r, _ := px.portfolio(c.t); r == "sat" || r == "unsat" {
+			rt = r
+			if r == "unsat" {
+				rf = "sat"
+			}
+		}
+	}
+	if rf == "unknown" {
+		if r, _ := px.portfolio("(not " + c.t + ")"); r == "sat" || r == "unsat" {
+			rf = r
+		}
 	}
 	tOK := rt != "unsat"
 	fOK := rf != "unsat"
@@ -223,12 +262,23 @@ func (px *pathCtx) branch(c sym, why string) bool {
 		panic(killPath{"infeasible path"})
 	}
 	px.pos++
+	px.decided[c.t] = d
 	px.assume(c, d)
 	px.logBranch(why, d)
 	return d
 }
 
 func (px *pathCtx) logBranch(why string, d bool) {
+	if progressEvery > 0 {
+		if px.res.branchSites == nil {
+			px.res.branchSites = map[string]int{}
+		}
+		w := why
+		if k := strings.Index(w, "=="); k > 0 {
+			w = w[:k]
+		}
+		px.res.branchSites[w]++
+	}
 	if why != "" && len(px.branchLog) < 400 {
 		px.branchLog = append(px.branchLog, fmt.Sprintf("%s=%v", why, d))
 	}
@@ -245,6 +295,18 @@ func (px *pathCtx) assume(c sym, d bool) {
 // choose case-splits an integer term over [lo,hi] and returns the concrete
 // value on this path. The caller guarantees lo<=v<=hi on the path.
 func (px *pathCtx) choose(s sym, lo, hi int64, signed bool, why string) int64 {
+	if v, ok := px.pinned[s.t]; ok && v >= lo && v <= hi {
+		return v
+	}
+	if px.pinned == nil {
+		px.pinned = map[string]int64{}
+	}
+	v := px.choose1(s, lo, hi, signed, why)
+	px.pinned[s.t] = v
+	return v
+}
+
+func (px *pathCtx) choose1(s sym, lo, hi int64, signed bool, why string) int64 {
 	for v := lo; v < hi; v++ {
 		var eq string
 		if s.k == kInt {
